@@ -543,6 +543,9 @@ def unit_read_offline(sess, ctx):
         eng.assume(v.pos == 0)
         v.open = z3.BoolVal(False)
         src = RD.inner_obj(eng, v)
+        # the source may or may not be one of the rewindable kinds (buffer source): the result must not depend on it
+        rew = eng.choose(2, None, "source is Rewindable?") == 0
+        eng.st.ghost["isa"][src.oid].update({"Rewindable": rew, "BufferAudioSource": rew})
         calls = []
         eng.contracts[QI + "get_audio_source"] = lambda e, f, sv, a, k: calls.append((tuple(a), dict(k))) or src
         inp = Opq(tag="input")
